@@ -96,6 +96,28 @@ def fmt_sec(s, ns, digits):
     return "%02d.%s" % (s, ("%09d" % ns)[:digits])
 
 
+def named_zone_fields(instant, zone):
+    """local civil fields of an instant in a named zone (system tz database via zoneinfo), or None when the
+    local time is ambiguous/skipped or the zone's offset is not a whole number of minutes"""
+    from zoneinfo import ZoneInfo
+    from datetime import datetime, timezone
+    sec, ns = divmod(instant, NS)
+    try:
+        dt = datetime.fromtimestamp(sec, tz=timezone.utc).astimezone(ZoneInfo(zone))
+    except (OverflowError, OSError, ValueError):
+        return None
+    off = dt.utcoffset().total_seconds()
+    if off % 60:
+        return None
+    naive = dt.replace(tzinfo=None)
+    z = ZoneInfo(zone)
+    a = naive.replace(tzinfo=z, fold=0)
+    b = naive.replace(tzinfo=z, fold=1)
+    if a.utcoffset() != b.utcoffset():
+        return None        # ambiguous or skipped local time
+    return dt.year, dt.month, dt.day, dt.hour, dt.minute, dt.second, ns, int(off)
+
+
 def render_literal(rng, instant, allow_time_only=True):
     """-> (text, denoted_instant, pattern_name, meta).  The literal is built from the instant
     truncated to what the chosen form can express; denoted_instant is that truncation."""
@@ -106,18 +128,28 @@ def render_literal(rng, instant, allow_time_only=True):
     y, m, d, h, mi, s, ns, days = fields(instant, o)
     if not (1 <= y <= 9999):
         return None
-    digits = rng.choice([0, 0, 1, 2, 3, 4, 6, 7, 9])
-    ns_t = (ns // 10 ** (9 - digits)) * 10 ** (9 - digits) if digits else 0
     form = rng.choice(["isoT", "iso", "isoT", "iso", "ordinal", "month12", "month24", "ctime", "astro12",
                        "astro24", "today12", "today24"] if allow_time_only else
                       ["isoT", "iso", "ordinal", "month12", "month24", "ctime", "astro12", "astro24"])
+    zone = None
+    if use_offset and 1972 <= y <= 2019 and not form.startswith("today") and rng.random() < 0.4:
+        # a named zone inside the literal (judged with the system tz database; years where both databases agree)
+        zone = rng.choice(ZONES)
+        nz = named_zone_fields(instant, zone)
+        if nz is None:
+            zone = None
+        else:
+            y, m, d, h, mi, s, ns, o = nz
+            days = days_from_civil(y, m, d)
+    digits = rng.choice([0, 0, 1, 2, 3, 4, 6, 7, 9])
+    ns_t = (ns // 10 ** (9 - digits)) * 10 ** (9 - digits) if digits else 0
     with_time = rng.random() < 0.85
     with_sec = rng.random() < 0.8
     if not with_sec:
         s_t, ns_t, digits = 0, 0, 0
     else:
         s_t = s
-    offs = (" " + fmt_offset(rng, o)) if use_offset else ""
+    offs = (" " + (zone if zone else fmt_offset(rng, o))) if use_offset else ""
     mon = MONTHS[m - 1]
     if rng.random() < 0.5:
         mon = mon[:3]
@@ -174,7 +206,9 @@ def render_literal(rng, instant, allow_time_only=True):
         else:
             text = "%02d:%02d%s%s" % (h, mi, sec, offs)
         den = instant_of(ty, tm, td, h, mi, s_t, ns_t, o)
-    return text, den, form, {"offset": o, "subsec_digits": digits, "with_time": with_time}
+    if zone and offs.strip() not in text:
+        zone = None
+    return text, den, form + (":zone" if zone and zone in text else ""), {"offset": o, "subsec_digits": digits, "with_time": with_time, "zone": zone}
 
 
 def lit(fr):
